@@ -39,7 +39,10 @@ def generate(rng, tier):
     for k in range(n):
         if nprobes and rng.random() < 0.5:
             pid = f"p{rng.randrange(nprobes)}"
-            if pid in live:
+            if pid in live and rng.random() < 0.3:
+                # the application registers a listener it has registered already (e.g. for a second question)
+                ops.append({"t": round(t, 6), "op": "probe", "act": "add", "id": pid, "again": True})
+            elif pid in live:
                 ops.append({"t": round(t, 6), "op": "probe", "act": "remove", "id": pid})
                 live.discard(pid)
             else:
